@@ -214,6 +214,7 @@ def run(ctx):
                        "python: values are outside the model; the gate-off theorem needs none (independence of the oracle)"]
     rnd = ctx.rng
     lines, cases = [], []
+    _iterator_contexts(res)
     # ---- (1) escaping canaries + (4) context snapshots -------------------------------------------------
     n = ctx.n(600, 10000)
     for i in range(n):
@@ -372,6 +373,56 @@ def map_tal_free(ast):
         else:
             out.append(n)
     return out
+
+
+def _iterator_contexts(res):
+    """tal:repeat over values without a length (iterators, generators, filter objects): whatever they yield -- nothing at all
+    included -- the caller's context is as it was after the expansion, and the output is that of the list of the same items."""
+    shapes = ['<ul><li tal:repeat="x %s" tal:content="x">i</li></ul><p tal:content="s">after</p>',
+              '<div tal:repeat="y lst"><b tal:repeat="x %s" tal:content="x">i</b><i tal:content="y">y</i></div>',
+              '<div tal:define="v n"><span tal:repeat="x %s"><em tal:content="repeat/x/number">n</em></span><u tal:content="v">v</u></div>']
+    makers = [("empty iterator", lambda: iter(()), []), ("exhausted generator", lambda: (c for c in ""), []), ("empty filter", lambda: filter(None, [0, "", None]), []),
+              ("iterator of three", lambda: iter(["a", "b", "c"]), ["a", "b", "c"]), ("generator of one", lambda: (c for c in "z"), ["z"])]
+    for shape in shapes:
+        for label, mk, items in makers:
+            tpl = shape % "it"
+            outs = {}
+            for which in ("iterator", "list"):
+                g = talgen.ctxvals()
+                g["it"] = mk() if which == "iterator" else list(items)
+                try:
+                    t, _p = talgen.real_compile(tpl)
+                    c = simpleTALES.Context(allowPythonPath=0)
+                    for k, v in g.items():
+                        c.addGlobal(k, v)
+                    pre = _snapshot_noiter(c)
+                    o = talgen.Sink()
+                    with talgen.time_limit():
+                        t.expand(c, o)
+                    post = _snapshot_noiter(c)
+                    outs[which] = o.getvalue()
+                except Exception as e:  # noqa
+                    res.violation("C18:real-raises:" + type(e).__name__, "expanding a template that repeats over a value without a length raised",
+                                  {"template": tpl, "value": label}, observed=repr(e), required="an expansion", replay={"kind": "iterator", "template": tpl, "value": label})
+                    outs[which] = None
+                    continue
+                res.evaluations += 1
+                res.nontrivial.add(("iterator", shape, label, which))
+                if post != pre:
+                    part = next(k for k in pre if pre[k] != post[k])
+                    res.violation("C18:context-leftover:" + part, "the caller's context is not restored after a repeat over a value without a length",
+                                  {"template": tpl, "value": label if which == "iterator" else "list " + repr(items)}, observed={part: post[part]}, required={part: pre[part]},
+                                  replay={"kind": "iterator", "template": tpl, "value": label})
+            # (inside an outer loop an iterator is used up by the first pass: only where it is walked once is it its list)
+            if 'tal:repeat="y lst"' not in shape and outs.get("iterator") is not None and outs.get("list") is not None and outs["iterator"] != outs["list"]:
+                res.violation("C18:iterator-differs-from-list", "a repeat over an iterator gives another document than a repeat over the list of its items",
+                              {"template": tpl, "value": label}, observed=outs["iterator"][:300], required=outs["list"][:300], replay={"kind": "iterator", "template": tpl, "value": label})
+
+
+def _snapshot_noiter(c):
+    return {"locals": repr(sorted(c.locals.items())), "localStack": len(c.localStack),
+            "globals": sorted(k for k in c.globals if k not in talgen.BUILTIN_GLOBALS), "repeat_global": repr(sorted(c.globals.get("repeat", {}).keys())) if hasattr(c.globals.get("repeat", {}), "keys") else "?",
+            "repeatMap": sorted(c.repeatMap.keys()) if hasattr(c.repeatMap, "keys") else repr(c.repeatMap), "repeatStack": len(c.repeatStack)}
 
 
 def _snapshot(c):
